@@ -3,7 +3,7 @@
 worktree of /repo's HEAD (VERIF_REPO points the checks at it; /repo itself is not touched).
 Writes /verif/seeded/RESULTS.json (merged) and prints a table."""
 import json, os, subprocess, sys, re
-V = "/verif"
+V = os.path.dirname(os.path.dirname(os.path.abspath(__file__)))
 names = sorted(d for d in os.listdir(V + "/seeded") if os.path.isdir(V + "/seeded/" + d))
 if len(sys.argv) > 1:
     names = [n for n in names if any(a in n for a in sys.argv[1:])]
@@ -36,5 +36,5 @@ for n in names:
         print("%-45s %s" % (n, "  ".join("%s:%s" % (p, "CAUGHT(%d concrete)" % v["concrete"] if v["concrete"] else ("flagged-no-input" if v["violations"] else "MISSED")) for p, v in row.items())), flush=True)
     finally:
         subprocess.run(["git", "-C", "/repo", "worktree", "remove", "--force", W])
-subprocess.run("cd /verif && git checkout -q -- evidence harness/.cargo/config.toml; python3 /verif/tools/gen_lean.py --repo /repo >/dev/null 2>&1", shell=True)
+subprocess.run("cd %s && git checkout -q -- evidence harness/.cargo/config.toml; python3 tools/gen_lean.py --repo /repo >/dev/null 2>&1" % V, shell=True)
 json.dump(res, open(V + "/seeded/RESULTS.json", "w"), indent=1)
